@@ -424,6 +424,10 @@ def _has_prefix(v, prefixes):
         return False
 
 
+def _positive(v):
+    return v > 0          # TypeError for None
+
+
 def _member(v, coll):
     return isinstance(coll, (list, tuple, set, frozenset)) and type(coll).__name__ in ("list", "set") and v in coll
 
@@ -456,6 +460,17 @@ def py_extras(tf):
     E["~a.test(prefix, ['x','y'])"] = ~tf.TagQuery().a.test(_has_prefix, ["x", "y"])
     E["a.test(member, ['x'])"] = tf.TagQuery().a.test(_member, ["x"])
     E["a.test(member, ('x',))"] = tf.TagQuery().a.test(_member, ("x",))
+    # a partial test function (raises TypeError on a None field): `a & b` and `b & a` are equal queries, so they must
+    # evaluate alike — both raise, or neither
+    pos = tf.FieldQuery().f.test(_positive)
+    ax = tf.TagQuery().a == "x"
+    nb = tf.TagQuery().b.exists()
+    E["f.test(positive) & (a == 'x')"] = pos & ax
+    E["(a == 'x') & f.test(positive)"] = ax & pos
+    E["f.test(positive) | b.exists()"] = pos | nb
+    E["b.exists() | f.test(positive)"] = nb | pos
+    E["(f.test(positive) | b.exists()) & (a == 'x')"] = (pos | nb) & ax
+    E["(b.exists() | f.test(positive)) & (a == 'x')"] = (nb | pos) & ax
     E["a.test(prefix, 'x')"] = tf.TagQuery().a.test(_has_prefix, "x")
     E["a.test(prefix, ('x',))"] = tf.TagQuery().a.test(_has_prefix, ("x",))
     return E
